@@ -1,6 +1,7 @@
 """Value provenance over SSA-form IR (mem2reg'd): expression trees for SSA values, canonical
 addresses for loads/stores, leaf sets.  Rules are written against these, so that they survive
 renaming of temporaries, reordering of independent statements and new intermediate locals."""
+import re
 from irdb import broken, type_count
 
 # Expression forms (tuples):
@@ -330,7 +331,8 @@ def addr_key(a):
     if root[0] == 'G':
         return 'G:' + root[1] + path_key(path)
     if root[0] == 'A':
-        return 'A:' + root[1] + path_key(path)
+        # a local that came in with an inlined helper carries the inliner's suffix (.i, .i12): not a field path
+        return 'A:' + re.sub(r'\.i(\d*)$', r'_i\1', root[1]) + path_key(path)
     return 'V(' + render(root[1]) + ')' + path_key(path)
 
 
